@@ -494,7 +494,11 @@ fn gen_liglig(seed: u64, index: u64) -> (FontSpec, Profile) {
     let marks: Vec<u16> = MARKS.to_vec();
     let arr: Vec<(u16, Anchor)> = marks.iter().map(|_| (0u16, anchor(r))).collect();
     let comp_anchors = |r: &mut Rng, n: usize| -> Vec<Vec<Option<Anchor>>> { (0..n).map(|k| vec![Some(Anchor { x: 100 + 400 * k as i16 + r.range(0, 50) as i16, y: 600 + 10 * k as i16 })]).collect() };
-    let ligatures = vec![comp_anchors(r, 2), comp_anchors(r, total)];
+    // the anchor table of a ligature may have FEWER component records than the ligature has components (the two counts
+    // are independent in OpenType): a mark on a later component then goes to the last record
+    let rows7 = if r.chance(1, 4) { 1 } else { 2 };
+    let rows8 = if r.chance(1, 3) { r.range(1, total as u64 - 1) as usize } else { total };
+    let ligatures = vec![comp_anchors(r, rows7), comp_anchors(r, rows8)];
     let ml = PosSubtable::MarkLig { mark_coverage: Coverage::Glyphs(marks.clone()), lig_coverage: Coverage::Glyphs(vec![7, 8]), class_count: 1, marks: arr.clone(), ligatures };
     let bases: Vec<u16> = BASES.to_vec();
     let mb = PosSubtable::MarkBase { mark_coverage: Coverage::Glyphs(marks), base_coverage: Coverage::Glyphs(bases.clone()), class_count: 1, marks: arr, bases: bases.iter().map(|_| vec![Some(anchor(r))]).collect() };
